@@ -1,5 +1,6 @@
 SPECIFICATION Spec
 CONSTANT Grid <- GridMutant
+CONSTANT ShuffleAll = TRUE
 CONSTANT OccNum <- MutOccNum
 INVARIANT OccBounds
 CHECK_DEADLOCK FALSE
